@@ -629,7 +629,10 @@ pub fn instr_toks(i: &Instr) -> Vec<Tok> {
                 }
                 PrintKind::MemDs(n) => {
                     t.push(kw("mem"));
-                    t.push(punct(":"));
+                    // "mem:" would be read as a label definition, so the colon is set apart
+                    let mut p = punct(":");
+                    p.space_before = true;
+                    t.push(p);
                     t.push(num(*n as i32, 0));
                 }
             }
